@@ -16,6 +16,17 @@ CLAIMS = {
              "touch the buffer (frame-checked); check_change_reparse/detect_fixed_format pure.",
         technique="VC generation from the Python AST (pyvc) + z3/cvc5; loop invariants; frame analysis",
         design="3/C02"),
+    "C19": dict(
+        text="For every configuration dict (any JSON values) and every option of the option table extracted from "
+             "cli(): present => file value, absent => unchanged, other options untouched (three loaders, mode F); "
+             "_load_config_file: no exception escapes for any file-system/parse outcome or top-level JSON type, a "
+             "bad file gives exactly one message and leaves all options unchanged; table completeness is a finite "
+             "mechanical obligation per option.",
+        note="Option values are opaque JSON values; open/json5.load/os.path abstracted by ghost inputs; set-valued "
+             "options assumed iterable (wrong scalar/set value types are a recorded known finding, checked "
+             "natively, bounded); debug_log's one-way override not specified.",
+        technique="VC generation from the Python AST (pyvc) + z3/cvc5; option table read from the AST",
+        design="3/C19"),
 }
 
 NOT_APPLICABLE = {
